@@ -228,6 +228,48 @@ def run_duration(stats, vs):
                 vs.append(mk("implementation-or-not-supported", b, f"mutate:{label}", f"exception:{X.exc_label(e)}", {"message": str(e)[:300]}))
 
 
+def run_unordered_slices(stats, vs):
+    """slice_head on a table without a determined order (outside the domain of the reference model,
+    because the result is not determined) still has to compile on every dialect"""
+    w = U.world()
+    built = {"polars": W.build(w, "polars"), "sqlite": W.build(w, "sqlite")}
+    built.update({d: D.build(w, d) for d in DIALECTS})
+    C_ = pdt.C
+    progs = [
+        ("slice_head(2, offset=1)", lambda t: t >> pdt.slice_head(2, offset=1)),
+        ("slice_head(2, offset=1) >> alias() >> filter", lambda t: t >> pdt.slice_head(2, offset=1) >> pdt.alias() >> pdt.filter(C_.k > 1)),
+        ("slice_head(2, offset=1) >> alias() >> summarize", lambda t: t >> pdt.slice_head(2, offset=1) >> pdt.alias() >> pdt.summarize(n=pdt.count())),
+        ("slice_head(3) >> slice_head(2, offset=1)", lambda t: t >> pdt.slice_head(3) >> pdt.slice_head(2, offset=1)),
+        ("slice_head(2, offset=1) >> alias() >> mutate(window) >> alias() >> filter",
+         lambda t: t >> pdt.slice_head(2, offset=1) >> pdt.alias() >> pdt.mutate(r=pdt.row_number(arrange=C_.k)) >> pdt.alias() >> pdt.filter(C_.r > 1)),
+        ("filter >> slice_head(1, offset=2) >> alias() >> arrange", lambda t: t >> pdt.filter(t.k > 0) >> pdt.slice_head(1, offset=2) >> pdt.alias() >> pdt.arrange(C_.k)),
+    ]
+    try:
+        for label, f in progs:
+            for b, bl in built.items():
+                stats["states"] += 1
+                stats["transitions"] += 1
+                try:
+                    with warnings.catch_warnings():
+                        warnings.simplefilter("ignore")
+                        t2 = f(bl.tables["T"])
+                        if b in ("polars", "sqlite"):
+                            t2 >> pdt.export(pdt.Polars())
+                        else:
+                            check_compiled(t2 >> pdt.build_query(), b, f"mutate:{label}", vs)
+                    stats[f"{b}:implemented"] += 1
+                    stats["traces_validated"] += 1
+                except Exception as e:  # noqa: BLE001
+                    if type(e).__name__ in ("NotSupportedError", "SubqueryError"):
+                        stats[f"{b}:{type(e).__name__}"] += 1
+                        stats["traces_validated"] += 1
+                        continue
+                    vs.append(mk("one-select-statement", b, f"unordered:{label}", f"exception:{X.exc_label(e)}", {"message": str(e)[:300]}))
+    finally:
+        built["polars"].close()
+        built["sqlite"].close()
+
+
 def run_nonstrict(stats, vs):
     """non-strict casts (cast(..., strict=False)): values are backend-dependent (DESIGN 4.8) and are
     not compared, but every dialect has to compile them (or raise NotSupportedError)"""
@@ -307,6 +349,7 @@ def tasks(tier):
         out.append({"part": "hist", "world": 0, "first": None, "depth": DIGEST_DEPTH, "hashseed": hs})
     out.append({"part": "duration"})
     out.append({"part": "nonstrict"})
+    out.append({"part": "unordered"})
     np_ = len(op_programs())
     for i in range(0, np_, 80):
         out.append({"part": "ops", "range": [i, min(np_, i + 80)]})
@@ -319,13 +362,15 @@ def tasks(tier):
 
 
 def run_task(task, tier):
-    if task["part"] in ("ops", "constargs", "duration", "nonstrict"):
+    if task["part"] in ("ops", "constargs", "duration", "nonstrict", "unordered"):
         stats, vs = Counter(), []
         dig = {}
         if task["part"] in ("ops", "constargs"):
             run_ops(task["range"], stats, vs, const=task["part"] == "constargs", reverse=bool(task.get("reverse")), digests=dig)
         elif task["part"] == "nonstrict":
             run_nonstrict(stats, vs)
+        elif task["part"] == "unordered":
+            run_unordered_slices(stats, vs)
         else:
             run_duration(stats, vs)
         merged = {}
@@ -378,6 +423,10 @@ def finalize(total, tier, seed):
 
 def recheck(rec):
     p = rec.get("params") or {}
+    if p.get("part") == "ops" and rec["py"].startswith("unordered:"):
+        stats, vs = Counter(), []
+        run_unordered_slices(stats, vs)
+        return [v for v in vs if v["class"] == rec["class"]]
     if p.get("part") == "ops" and "strict=False" in rec["py"]:
         stats, vs = Counter(), []
         run_nonstrict(stats, vs)
